@@ -11,6 +11,26 @@ Clauses
                monopole / array judge the LAST call of a history on one object (shift given at initialisation, then a different
                explicit shift at the call; an earlier monopole()/periodicarray() call with other arguments)
   sizemults    the documented argument types of sizemults (tuple; list left untouched, call repeatable)
+  options_shift / options_size   (H) enumerated combinations of the options that touch the same state, judged by the monopole / array oracles
+
+Generator classes carried over from other properties (round 5; labels in brackets):
+  A result ledger [ledger, ledger_later_calls, ledger_other_object, ledger_same_size]: what the constructor and every call handed out
+    is kept with a snapshot and compared bit for bit after later calls on the same and on another Dislocation object; results of
+    different calls must not share memory (monopole, array, reference, disregistry)
+  B caller-side mutation [mut_inputs, mut_inputs_shift, mut_outputs, mut_shift_attribute]: arguments bit-identical after each call,
+    then overwritten by the caller; systems handed out by an earlier call overwritten; the array read from .shift written into
+  C forms [forms, narrow, form_*, ucell_*, int_limit]: int8 .. uint16 / big-endian / bool / float32 / float16 / read-only / strided /
+    tuple arguments, numpy-scalar multipliers, indices, widths, cutoffs, minimum lengths; unit cell stored in single precision etc.
+  D working units [units, units_pre, units_default_cutoff]: histories under reset_units(named | seed | 'SI'), before that under the
+    default or another configuration in the same process, outcomes compared; default cutoff = 0.5 Angstrom physically
+  E near-threshold values [near, near_plane, near_face, near_bd, near_min, near_cen]
+  F many decades in one call: does not apply - the generators take no free (N, 3) array; their array arguments are 3-vectors
+    (shift, centre) and the positions come from one crystal with one lattice parameter (<= 3 decades between the nearest atom and
+    the system size); the length scale as a whole is the `scaled` class
+  G exactly structured inputs [oriented, oriented_diagonal_negative, halves]: unit cell in the 24 signed-permutation frames, exact
+    halves / quarters for in-plane shifts and centres (mirrored / relabelled slip systems: the enumerated tables hold every
+    (hkl), [uvw], b with |index| <= 2, each judged absolutely; negative m / n axes are refused by the solver's documented assertion)
+  H enumerated option combinations: clauses options_shift, options_size
 """
 import math
 import re
@@ -39,25 +59,50 @@ RULE = ("hand-built unit cells (sc, B2, L1_2, fcc/diamond conventional 'f', bcc 
         "half of the cases, else -12 .. 6 with 1e-10 (metres) favoured; every length tolerance of the oracles is a multiple of "
         "10^k.  `tol` stays at its default (documented as the dimensionless tolerance of the elastic solver).  The elastic "
         "constants carry an independent magnitude 1e-2 .. 1e3 (the range in which the Stroh solver accepts every medium "
-        "generated here; a refusal outside C11 = 1 is counted, not judged).  Non-trivial: edge or mixed character AND a non-default m/n "
-        "assignment.")
+        "generated here; a refusal outside C11 = 1 is counted, not judged).  Round 5 (classes carried over from other properties): "
+        "LEDGER - the attributes read at construction, the systems of an earlier call and of the judged call are kept with snapshots; after "
+        "the judged call, in half of the cases, later calls follow on the same object and / or on another Dislocation object of the same "
+        "crystal (same multipliers in half of those) and everything kept must be bit-identical and share no memory.  MUTATION - in a third "
+        "of the cases the caller overwrites every array / list it handed in after the constructor and after each call (shift vectors in a "
+        "third of those), in a third the systems an earlier call returned, in one of eight the array read from .shift.  FORMS - in two of "
+        "three cases each array-like argument independently as tuple / float64 / int8 / int16 / int32 / uint8 / uint16 / big-endian / bool "
+        "/ float32 / float16 (values exactly representable, or the rounded vector is the input) / read-only / strided array; multipliers "
+        "and shift indices as numpy integers; widths, cutoffs, minimum lengths as numpy scalars; integer centres with the line component "
+        "at the limit of the dtype; the unit cell stored in single precision (exact coordinates) / from Fortran-ordered, strided input / "
+        "read-only / int8 types / nested lists.  UNITS - one case in six or seven runs under atomman.unitconvert.reset_units(length = nm | "
+        "pm | m | cm | aBohr | um [+ other quantities] | integer seed | 'SI'): the crystal (k = 0) re-expressed with my own numericalunits "
+        "product, two thirds after the same history under the default or another configuration in the same process.  NEAR - one case in "
+        "four has an atomic plane a relative 1.7e-8 .. 1e-3 (of half the plane spacing) off the slip plane / cut plane, an atom a relative "
+        "1e-12 .. 1e-3 of a cell off a box face, the boundary surface 1e-12 .. 1e-3 length units off an atomic plane, or a minimum length a "
+        "relative 1e-12 .. 1e-3 off a whole number of cells.  FRAMES - cubic structures: the unit cell in one of the 24 proper signed "
+        "permutations of the axes in half of the cases; in-plane shifts / centres at exact halves, quarters, eighths in one of six.  "
+        "OPTIONS - enumerated, see the options clauses.  Non-trivial: edge or mixed character AND a non-default m/n assignment.")
 ASSUMPTIONS = [
     "the elastic solution object (VolterraDislocation.displacement, .burgers, .m, .n, .transform) is judged by C12; here it is "
     "evaluated by the oracle at positions the oracle chooses",
     "System.supersize / wrap (C04, C05) are used to rebuild the full reference system of a periodic array",
     "scipy.spatial.cKDTree and numpy linear algebra are correct",
     "unit cells are built by hand (no prototype database): sc, B2, L1_2, fcc, diamond, bcc, hcp",
-    "atomman's working units are not changed (uc.reset_units is global state): a crystal 'in metres' is a crystal whose numbers "
-    "are 1e-10 times the Angstrom ones, and arguments with a unit-aware default (cutoff) are given explicitly",
+    "length scale class: the working units stay at their default and a crystal 'in metres' is a crystal whose numbers are 1e-10 times "
+    "the Angstrom ones, arguments with a unit-aware default (cutoff) given explicitly; unit plans: atomman.unitconvert.reset_units "
+    "applies the configuration (C09's subject), numericalunits.angstrom is then the size of one Angstrom, and the default units are "
+    "restored after every case (process-global state)",
+    "the elastic constants are NOT re-expressed under a unit plan (the field does not depend on their magnitude; in SI the same "
+    "medium has C ~ 1e11, outside the range in which the Stroh solver accepts every medium: C12's ground)",
+    "building an atomman.System from the forms of class C (single precision, Fortran-ordered, strided positions) is C01 / C03's subject",
 ]
 LEVEL_TEXT = ("Random search over hand-built fcc/bcc/hcp/sc/ordered cells (primitive and centred settings), all slip planes and "
               "line directions with |index| <= 2, screw/edge/mixed and partial Burgers vectors, the six m/n axis assignments, "
               "size multipliers, shifts, centres, boundary shapes/widths, linear/solution arrays; systems up to 3000 atoms; every "
               "case in Angstrom-like numbers or multiplied by an overall length scale 1e-12 .. 1e6 (on the unchanged tree the open "
-              "finding on `tol` excludes cells <= 1e-2 units), elastic constants of magnitude 1e-2 .. 1e3.")
+              "finding on `tol` excludes cells <= 1e-2 units), elastic constants of magnitude 1e-2 .. 1e3; object and process "
+              "histories with a result ledger and caller-side overwriting, narrow / non-contiguous / numpy-scalar argument forms, "
+              "working-unit configurations, near-threshold geometry, signed-permutation frames of the unit cell, and enumerated "
+              "combinations of the shift / size / boundary / centre options.")
 TECHNIQUE = ("lattice map-back of the reference system through `transform`; re-evaluated displacement field at reference "
              "positions; own half-space/cylinder predicates; duplicate/overlap search under the new periodicity; analytic "
-             "tail bound for the disregistry")
+             "tail bound for the disregistry; bit-for-bit ledger of everything handed out; same physical history under two "
+             "working-unit configurations")
 WALL = {'quick': 70, 'thorough': 560}
 
 KEY_TUPLE = 'C13:sizemults:tuple'
@@ -171,6 +216,9 @@ def hand(c, name, values, how, round_ok=False):
                 how = 'int8'
             elif how in ('uint8', 'uint16') and val.min() < 0:
                 how = 'int8' if how == 'uint8' else 'int16'
+            for wider in ('int16', 'int32', 'array'):          # values beyond the limits of the type: the next wider one
+                if how in _INT_DT and how != 'bool' and (val.min() < np.iinfo(_INT_DT[how]).min or val.max() > np.iinfo(_INT_DT[how]).max):
+                    how = wider
         if how in ('f32', 'f16'):
             dt = np.float32 if how == 'f32' else np.float16
             with np.errstate(over='ignore', under='ignore'):
@@ -361,10 +409,14 @@ def setup(cr):
     c.ledger = Ledger()
     a0 = cr['a']
     uform = c.forms.get('uc', 'plain')
-    if uform == 'f32' and not (name in g.CUBIC_C and c.s == 1.0):
+    if uform == 'f32' and name not in g.CUBIC_C:
         uform = 'plain'
     if uform == 'f32':
-        a0 = max(1, round(a0 * 64)) / 64.0             # every Cartesian coordinate a multiple of a / 4: exact in single precision
+        # every Cartesian coordinate a multiple of a / 4 with a = k / 64: exact in single precision (the lattice parameter of the
+        # case whatever the unit system; the single precision storage itself only where the numbers are the Angstrom ones)
+        a0 = max(1, round(a0 * 64)) / 64.0
+        if c.s != 1.0:
+            uform = 'plain'
     c.a = a0 * c.s
     # G: the crystal in a frame turned by a proper signed permutation of the axes (rows of V are the cell vectors)
     c.Q = g.SIGNED_PERMS[int(cr.get('orient', 0))]
@@ -694,7 +746,7 @@ def overwrite_shift_attribute(c, labels):
     if not (isinstance(arr, np.ndarray) and arr.flags.writeable):
         return
     before = np.array(d.shifts, dtype=float, copy=True)
-    arr[...] = np.nan
+    arr[...] = np.nan if arr.dtype.kind == 'f' else 7
     now = np.array(d.shifts, dtype=float)
     require(_same_bits(before, now), lambda: '.shifts changed from %r to %r when the caller overwrote the array handed out as .shift '
             '(set_shift(shiftindex=i) hands out a view of row i of .shifts)' % (before.tolist(), now.tolist()), key=KEY_ALIAS)
@@ -744,7 +796,7 @@ def apply_history(c, case, gen, labels):
         require(np.abs(np.asarray(d.shift, dtype=float) - current).max() <= 1e-9 * (c.s + np.abs(current).max()),
                 lambda: 'attribute shift = %r before a call without shift arguments, last set %r' % (d.shift, current))
         return
-    if c.lm.get('mut_shift'):
+    if c.lm.get('mut_shift') and h['call']['kind'] != 'index0':
         overwrite_shift_attribute(c, labels)
     c.shift = vec
     labels.add('call_shift_' + tag)
@@ -1234,7 +1286,8 @@ def with_classes(draw, cs):
         spec = {'kind': 'vecscaled' if nr['scaled'] else 'vec', 'index': nr['index'], 'as': nr['as'],
                 'inplane': [float(x) for x in nr.get('face', [0.0, 0.0])], 'normal': float(nr.get('plane', 0.0))}
         if cs['hist']:
-            cs['hist']['call'] = spec
+            if cs['hist']['call']['kind'] != 'index0':          # (the explicit shiftindex=0 calls stay what they are)
+                cs['hist']['call'] = spec
         else:
             if not nr['scaled'] and nr['index'] % 2:
                 spec['kind'] = 'vec_call'
@@ -1436,7 +1489,10 @@ def array_cases(draw):
     cs = {'disl': draw(_disl_hist if h else _disl_fresh), 'size': draw(g.sizes()), 'center': draw(g.centers()),
           'boundary': draw(g.boundaries(shapes=('box',))), 'linear': draw(st.integers(0, 2)) == 0, 'cutoff': draw(_cutoff),
           'hist': h}
-    return with_classes(draw, cs)
+    cs = with_classes(draw, cs)
+    if cs['units']:
+        cs['cutoff'] = None          # D: under a unit plan the documented default (0.5 Angstrom, converted by the tool) is what is tested
+    return cs
 
 
 REFUSALS = (('onplane', 'atom positions found on slip plane'),
@@ -2180,30 +2236,43 @@ def oracle_options(case):
 # sizemults (400 cases): the overall share only
 SCALE_SHARE = {'scaled': 0.075, 'scaled_large': 0.05, 'scaled_small': 0.02, 'nt_scaled': 0.02, 'C_magnitude_scaled': 0.19}
 SOLVER_SHARE = {'solver_refused': 0.02}
+# round-5 classes: half of the smallest share seen at seeds 2, 3, 4 on the unchanged tree, where the open findings on set_shift
+# (mut_inputs_shift, mut_shift_attribute) and on numpy multipliers (form_sm) exclude their cases: those labels carry no guard
+CLASS_SHARE = {'forms': 0.2, 'narrow': 0.18, 'oriented': 0.14}
+HIST_SHARE = dict({'ledger': 0.27, 'ledger_first': 0.11, 'ledger_later_calls': 0.18, 'ledger_other_object': 0.08, 'ledger_same_size': 0.09,
+                   'mut_inputs': 0.09, 'mut_outputs': 0.05, 'near': 0.045, 'near_face': 0.008, 'halves': 0.025, 'units': 0.03, 'units_pre': 0.02},
+                  **CLASS_SHARE)
+# (the shares of the small classes vary by a factor of five between seeds when the machine is loaded and only four shards run, each
+# cut short by the soft wall - Hypothesis explores in bursts around earlier examples: guards at half of the smallest share seen in
+# nine runs, seeds 1 .. 6, full and wall-cut)
 
 CLAUSES = [
     Clause('reference', oracle_reference, reference_cases, quick=1000, thorough=24000,
-           min_share=dict({'nt': 0.04, 'frame_ok': 0.2, 'hcp': 0.01, 'mn_cyclic': 0.08}, **SCALE_SHARE), max_share=SOLVER_SHARE,
+           min_share=dict({'nt': 0.04, 'frame_ok': 0.2, 'hcp': 0.01, 'mn_cyclic': 0.08, 'units': 0.025}, **SCALE_SHARE, **CLASS_SHARE), max_share=SOLVER_SHARE,
            desc='rcell/uvws/transform/shifts and the reference system: the unit cell crystal rotated by transform, shifted, filling the box once'),
     Clause('monopole', oracle_monopole, monopole_cases, quick=1000, thorough=36000,
            min_share={'nt': 0.06, 'bd_mixed': 0.12, 'bd_cylinder': 0.06, 'bd_box': 0.06, 'center_scaled': 0.03, 'center_abs': 0.05,
                       'wrapped_along_line': 0.15, 'history_second_call': 0.24, 'history_ctor_shift_differs': 0.08,
                       'history_shift_changes': 0.15, 'history_other_generator': 0.08, 'explicit_shiftindex0': 0.15,
-                      'explicit_shiftindex0_stale': 0.08, **SCALE_SHARE}, max_share=SOLVER_SHARE,
+                      'explicit_shiftindex0_stale': 0.08, **SCALE_SHARE, **HIST_SHARE}, max_share=SOLVER_SHARE,
            desc='monopole: all reference atoms kept, displaced by the solution at (reference position - centre), periodic along the line only, boundary atoms re-typed exactly outside the box / cylinder region'),
     Clause('array', oracle_array, array_cases, quick=1000, thorough=36000,
            min_share={'nt': 0.06, 'removed': 0.15, 'interior': 0.12, 'band': 0.07, 'linear': 0.06, 'history_second_call': 0.25,
                       'history_ctor_shift_differs': 0.07, 'history_shift_changes': 0.15, 'history_other_generator': 0.1,
-                      'explicit_shiftindex0': 0.16, 'explicit_shiftindex0_stale': 0.08, **SCALE_SHARE},
+                      'explicit_shiftindex0': 0.16, 'explicit_shiftindex0_stale': 0.08, 'near_bd': 0.01, 'units_default_cutoff': 0.01,
+                      **SCALE_SHARE, **HIST_SHARE},
            max_share=dict({'refusal': 0.25}, **SOLVER_SHARE),
            desc='periodic array: deletion count from the edge component, deleted atoms are duplicates, no overlap in-plane, old_id maps back, linear / solution displacement re-derived, pbc and box'),
     Clause('disregistry', oracle_disregistry, disreg_cases, quick=800, thorough=20000,
-           min_share=dict({'nt': 0.05, 'tail': 0.12, 'exact_linear': 0.03, 'bookkeeping': 0.15, 'tripled': 0.01}, **SCALE_SHARE),
+           min_share=dict({'nt': 0.05, 'tail': 0.12, 'exact_linear': 0.03, 'bookkeeping': 0.15, 'tripled': 0.01, 'units': 0.005}, **SCALE_SHARE, **CLASS_SHARE),
            max_share=dict({'refusal': 0.25}, **SOLVER_SHARE),
            desc='disregistry across the slip plane accumulates to b up to the analytic tail bound (exactly b (x_hi-x_lo)/L for the linear field); error shrinks when the width is tripled'),
     Clause('options_shift', oracle_options, enumerate=options_shift_cases, nontrivial=lambda labels: 'history_second_call' in labels,
+           min_share={'history_second_call': 0.45, 'history_other_generator': 0.22, 'explicit_shiftindex0_stale': 0.05, 'history_keep': 0.01,
+                      'explicit_zero_shift': 0.03, 'ledger_first': 0.45, 'removed': 0.25},
            desc='H: constructor shift choice x earlier call (generator x shift choice) x judged generator x shift choice, enumerated; judged by the monopole / array oracles'),
     Clause('options_size', oracle_options, enumerate=options_size_cases, nontrivial=lambda labels: 'min_raised_mult' in labels or 'default_sizemults' in labels,
+           min_share={'min_raised_mult': 0.11, 'default_sizemults': 0.04, 'mins_2': 0.1, 'mins_3': 0.03},
            desc='H: sizemults absent / list / tuple x every subset of amin, bmin, cmin x line along a, b, c; boundary shape / width / scale x centre / centerscale pairs; enumerated'),
     Clause('sizemults', oracle_sizemults, sizemults_cases, quick=300, thorough=4000, min_share={'monopole': 0.1, 'scaled': 0.075}, max_share=SOLVER_SHARE,
            desc='sizemults as the documented tuple equals the list result; a list argument is left untouched and the call is repeatable'),
